@@ -39,7 +39,9 @@ BACKEND_PIPE = {"name": "backend", "priority": 1, "transformations": [{"id": "bs
 
 def rule_doc(kind, i=0):
     cat = {"state": "withstate", "pipefail": "fail"}.get(kind, "c")
-    d = {"title": f"{kind}{i}", "logsource": {"category": cat}, "detection": {"sel": {"fieldA": f"v{i}", "g": 1}, "flt": {"h": "x"}, "condition": "sel and not flt"}}
+    d = {"title": f"{kind}{i}", "logsource": {"category": cat}, "detection": {"sel": {"fieldA": f"v{i}", "g": 1}, "flt": {"h": f"x{i}"}, "condition": "sel and not flt"}}
+    if kind == "casedprobe": d["detection"] = {"sel": {"fieldA|cased|contains": f"Ab{i}", "fieldB|cased|startswith": "Cd", "fieldC|cased|endswith": "Ef", "g": 1},
+                                               "flt": {"h": f"x{i}"}, "condition": "sel and not flt"}
     if kind == "placeholder": d["detection"]["sel"]["fieldA|expand"] = "%nope%"; del d["detection"]["sel"]["fieldA"]
     if kind == "badvalue": d["detection"]["kw"] = [True]; d["detection"]["condition"] = "sel and kw"
     if kind == "missing": d["detection"]["condition"] = "sel and not nosuch"
@@ -47,10 +49,10 @@ def rule_doc(kind, i=0):
     return d
 
 
-def make_class():
+def make_class(cased="none"):
     from sigma.processing.pipeline import ProcessingPipeline
     cfg = {"prec": ["not", "and", "or"], "parenthesize": False, "orAsIn": False, "andAsIn": False, "inAllowWild": False, "notAsNotEq": True,
-           "sw": True, "ew": True, "ct": True, "wm": False, "cased": "none", "explicitNotExists": False, "nativeCidr": True}
+           "sw": True, "ew": True, "ct": True, "wm": False, "cased": cased, "explicitNotExists": False, "nativeCidr": True}
     B = qsyntax.make_backend(cfg)
 
     def finalize_query_default(self, rule, query, index, state):
@@ -68,8 +70,10 @@ def gen_cases(tier, seed, gen, effort):
     cases = []
     for h in hists:
         for probe in ("convert", "convert_rule"):
-            for pk in ("plain", "state"):
+            for pk in ("plain", "state", "casedprobe"):
                 if len(h) > 2 and rnd.random() < 0.5:
+                    continue
+                if pk == "casedprobe" and len(h) <= 2 and len(h) > 0 and rnd.random() < 0.5:
                     continue
                 cases.append({"history": list(h), "probe": probe, "probe_kind": pk})
     return cases, False
@@ -81,7 +85,8 @@ def run_history(case, fresh):
     from sigma.rule import SigmaRule
     from sigma.processing.pipeline import ProcessingPipeline
     from sigma.conditions import _parse_condition_string
-    cls = make_class()
+    _parse_condition_string.cache_clear()      # every run starts like a new process: what is cached comes from this history only
+    cls = make_class("all" if case["probe_kind"] == "casedprobe" else "none")
     P = ProcessingPipeline.from_dict(copy.deepcopy(PIPE))
     A = cls(P, collect_errors=False)
     n = [0]
